@@ -129,7 +129,7 @@ def run(tier, seed):
         translate.translate("C01")
     except Exception as e:
         ck.proof_broken("translator gen/c01.py", repr(e))
-    ck.prove("ScrapliProps.C02", lemma_files=["ScrapliProps/C01Lemmas.lean", "ScrapliModel/Channel/Chan.lean", "ScrapliModel/Channel/Basic.lean", "ScrapliModel/Channel/Ansi.lean"])
+    ck.prove("ScrapliProps.C02", lemma_files=["ScrapliProps/C01Lemmas.lean", "ScrapliProps/C01Interact.lean", "ScrapliProps/C01.lean", "ScrapliModel/Channel/Chan.lean", "ScrapliModel/Channel/Basic.lean", "ScrapliModel/Channel/Ansi.lean"])
     if tier == "thorough":
         ck.leanchecker("ScrapliProps.C02")
     # known findings: replay stored witnesses
